@@ -1972,9 +1972,13 @@ def run_c18(ctx):
     extra = sum(total.nfail.values()) - len(total.fail)
     if extra:
         ctx.note('%d further failing tests not listed individually: %s' % (extra, dict(total.nfail)))
+    # the FSM library itself (pexpect/FSM.py), for every table - not only the one ANSI.py builds
+    from . import fsmlib
+    fsm_stats = fsmlib.part(ctx)
     status, nviol, nknown = common.conclude(ctx)
     evidence.write('C18', ctx.tier, ctx.seed, 'model_checking', {
-        'states': states, 'transitions': transitions,
+        'fsm_library': fsm_stats,
+        'states': states + fsm_stats['fsmlib_states'], 'transitions': transitions,
         'traces_validated_against_impl': tstats['traces'],
         'samples': samples + [{'trace_meta': corpus[(3, 5)][0]['meta'], 'events': corpus[(3, 5)][0]['ev'][:4]}],
         'evaluations': total.count['evaluations'] + tstats['events'],
